@@ -187,7 +187,7 @@ func main() {
 									errs[i] = err.Error()
 									return
 								}
-								b, err := io.ReadAll(r)
+								b, err := readAllSmall(r, o.k)
 								if err != nil {
 									errs[i] = err.Error()
 									return
@@ -339,7 +339,7 @@ func runSolo(disp *randDispatch, sh shared, ts []op, i int, plains, files [][]by
 				errs = err.Error()
 				return
 			}
-			b, err := io.ReadAll(r)
+			b, err := readAllSmall(r, o.k)
 			if err != nil {
 				errs = err.Error()
 				return
@@ -367,4 +367,24 @@ func compact(ch []int) string {
 		return "default"
 	}
 	return b.String()
+}
+
+// readAllSmall reads everything; the 40-byte plaintext (k == 1) is consumed with 16-byte reads so that a chunk is
+// only partially consumed when other threads run (buffers handed back too early become visible).
+func readAllSmall(r io.Reader, k int) ([]byte, error) {
+	if k != 1 {
+		return io.ReadAll(r)
+	}
+	var out []byte
+	buf := make([]byte, 16)
+	for {
+		n, err := r.Read(buf)
+		out = append(out, buf[:n]...)
+		if err == io.EOF {
+			return out, nil
+		}
+		if err != nil {
+			return out, err
+		}
+	}
 }
